@@ -47,6 +47,12 @@ def plans(tier, seed):
         [("take", ["o1", "o2"]), ("drop", ["o1", "o2"]), ("take", ["o2", "o2"]), ("flag", ["o3"])],
         [("sweep", ["o1"]), ("take", ["o2", "o3"]), ("drop", ["o1", "o2"])],
         [("flag", ["o2"])],
+        # two agents without a common object that write the same zero-arity fluent, one of them conditionally on its value
+        [("charge", ["o3"]), ("burn", ["o1", "o1", "o2"])],
+        [("burn", ["o2", "o2", "o1"]), ("charge", ["o1"]), ("flag", ["o3"])],
+        # o2's quantified effect deletes (q o2 o1), its take re-establishes it, o1's help needs it: help cannot share take's step
+        [("sweep", ["o2"]), ("take", ["o2", "o1"]), ("help", ["o1", "o2"])],
+        [("take", ["o2", "o1"]), ("help", ["o1", "o2"]), ("sweep", ["o2"]), ("take", ["o2", "o1"]), ("help", ["o3", "o2"])],
     ]
     out = list(curated)
     n = 120 if tier == "quick" else 1200
@@ -58,6 +64,7 @@ def plans(tier, seed):
                 if i != j:
                     pool.append(("burn", [a, i, j]))
         pool += [("sweep", [a]), ("flag", [a]), ("charge", [a]), ("audit", [a])]
+        pool += [("help", [a, b_]) for b_ in AGENTS3 if b_ != a]
     while len(out) < len(curated) + n:
         k = rng.choice([2, 3, 3, 4] if tier == "quick" else [2, 3, 4, 4])
         out.append([rng.choice(pool) for _ in range(k)])
@@ -443,19 +450,24 @@ def concrete_extract(plan_text, agents):
 
 def tasks_for(tier, seed):
     tasks = []
-    for p in plans(tier, seed):
+    n_curated = len(plans(tier, seed)) - (120 if tier == "quick" else 1200)
+    for pi, p in enumerate(plans(tier, seed)):
         ags = sorted({agent_of(c) for c in p})
         agent_sets = [AGENTS3] if tier == "quick" else [AGENTS3, ags if len(ags) >= 2 else AGENTS3[:2]]
         for agents in agent_sets:
             if not set(ags) <= set(agents):
                 continue
             for flag in (True, False):
-                # the agent list in the caller's order, which is not always the alphabetical one: slot i belongs to agents[i]
-                k = len(tasks) % 3
-                agents = list(agents[k:]) + list(agents[:k]) if len(agents) == 3 else (list(reversed(agents)) if k else list(agents))
-                tasks.append({"kind": "convert", "plan": p, "agents": agents, "flag": flag, "cap": 9 if tier == "quick" else 12,
-                              "max_paths": 3000 if tier == "quick" else 30000, "via_file": len(tasks) % 3 == 0,
-                              "reused_converter": len(tasks) % 4 == 1})
+                # the agent list in the caller's order, which is not always the alphabetical one: slot i belongs to agents[i].
+                # Curated plans are converted under EVERY rotation of the list (their detection power must not depend on the
+                # position they happen to have in the task list); sampled plans under one rotation each.
+                rotations = range(3) if pi < n_curated else [len(tasks) % 3]
+                for k in rotations:
+                    ag = list(agents[k:]) + list(agents[:k]) if len(agents) == 3 else (list(reversed(agents)) if k else list(agents))
+                    tasks.append({"kind": "convert", "plan": p, "agents": ag, "flag": flag, "cap": 9 if tier == "quick" else 12,
+                                  "max_paths": 3000 if tier == "quick" else 30000,
+                                  "via_file": (pi + k) % 2 == 1 if pi < n_curated else len(tasks) % 3 == 0,
+                                  "reused_converter": len(tasks) % 4 == 1})
     for shape in ([([1, 1], "a1")], [([2], "a2"), ([1, 1], "a1")], [([1, 1, 1], "a1")]):
         for prefix in ("", "0: ", "12: "):
             tasks.append({"kind": "extract", "shape": shape, "agents": ["a1", "a2"], "prefix": prefix})
